@@ -122,7 +122,9 @@ func pass(c *corpus, infos []*linter.CheckerInfo, orderFor func(f *fw.File) []in
 						info := infos[ci]
 						var ctx0 fw.CtxSnap
 						var inf0 string
+						var deep0 []string
 						if level >= 2 {
+							deep0 = fw.DeepCtx(set.Ctx)
 							ctx0 = fw.SnapContext(set.Ctx)
 							inf0 = fw.SnapInfo(info)
 						}
@@ -151,6 +153,12 @@ func pass(c *corpus, infos []*linter.CheckerInfo, orderFor func(f *fw.File) []in
 								}
 								local = append(local, mutation{key, fmt.Sprintf("%s: shared linter.Context differs after Check of %s", info.Name, f.ID()),
 									map[string]interface{}{"checker": info.Name, "file": f.Path, "fields": d}})
+							}
+							if d := fw.DiffDeep(deep0, fw.DeepCtx(set.Ctx)); len(d) > 0 && fw.SnapContext(set.Ctx) == ctx0 {
+								// state that is not one of the documented fields (a cache, a counter, ...) changed during Check
+								local = append(local, mutation{"C05/" + info.Name + "/context-mutation", fmt.Sprintf("%s: the shared linter.Context (deep view of all fields) differs after Check of %s", info.Name, f.ID()),
+									map[string]interface{}{"checker": info.Name, "file": f.Path, "fields": d,
+										"replay": "NewContext; NewChecker(" + info.Name + "); render every field of *linter.Context reflectively; Check(file); render again"}})
 							}
 							if inf1 := fw.SnapInfo(info); inf1 != inf0 {
 								local = append(local, mutation{"C05/" + info.Name + "/params-mutation", fmt.Sprintf("%s: registered CheckerInfo/params differ after Check of %s", info.Name, f.ID()),
